@@ -140,6 +140,16 @@ func (c *ocase) modelObjects() string {
 
 func (c *ocase) key() string { return c.modelObjects() }
 
+// modelObjectList: one "(obj …)" per object.
+func (c *ocase) modelObjectList() []string {
+	var out []string
+	for i := range c.Objects {
+		x := &ocase{Types: c.Types, Objects: c.Objects[i : i+1]}
+		out = append(out, strings.TrimSpace(x.modelObjects()))
+	}
+	return out
+}
+
 // intVals: (hex int) for every body of an integer-kind column (what Sum decodes).
 func (c *ocase) intVals() string {
 	seen := map[string]bool{}
@@ -191,11 +201,14 @@ type wReq struct {
 	Objects [][]rrec   `json:"objects,omitempty"`
 	Queries []string   `json:"queries,omitempty"`
 	Input   string     `json:"input,omitempty"`
+	// Parallelism > 0: lake queries run with this many scan legs (compiler.NewLakeQuery)
+	Parallelism int `json:"parallelism,omitempty"`
 }
 
 type qRes struct {
-	Out []string `json:"out"`
-	Err string   `json:"err,omitempty"`
+	Out  []string `json:"out"`
+	Rows []aggRow `json:"rows,omitempty"` // count() by: typed rows
+	Err  string   `json:"err,omitempty"`
 }
 
 type wResp struct {
@@ -320,8 +333,12 @@ func workerHandle(raw json.RawMessage) any {
 		run := func() []qRes {
 			var out []qRes
 			for _, q := range req.Queries {
-				r, err := l.Query("from " + pname + " | " + q)
-				qr := qRes{Out: r}
+				vals, err := lakeQueryValues(l, "from "+pname+" | "+q, req.Parallelism)
+				qr := qRes{}
+				for _, v := range vals {
+					qr.Out = append(qr.Out, ZsonOf(v))
+					qr.Rows = append(qr.Rows, cbRowOf(v))
+				}
 				if err != nil {
 					qr.Err = err.Error()
 				}
